@@ -266,6 +266,27 @@ def check_case(ctx, case):
         # simulated statistics are finite: an event in a zero-rate bin would give -inf (Poisson / binary)
         if kind.startswith("poisson") and any(math.isinf(x) or math.isnan(x) for x in ta):
             ctx.violation(name + ":non_finite_simulated_statistic", {"td": ta[:5]})
+        # seed AND injected uniform numbers together (L-test): the seed fixes the Poisson number of events of the first simulation
+        # (N_1, seen in the seeded run above), the injected row supplies its N_1 uniform numbers; the result may depend on neither
+        # the global generator state nor anything else
+        if name == "poisson_L" and orig is not None and len(seen) == nsim and seen and 0 < seen[0][0] <= 400:
+            n1 = seen[0][0]
+            U1 = numpy.array([[(j + 0.5) / n1 for j in range(n1)]])
+            outs = []
+            for state in (333, 444):
+                numpy.random.seed(state)
+                for _ in range(state % 7):
+                    numpy.random.poisson(3.0)
+                outs.append(call(fn, fore, S.catalog(region), num_simulations=1, seed=seed, random_numbers=U1))
+            ctx.count("L_tests_with_seed_and_injected_numbers")
+            if outs[0].ok != outs[1].ok:
+                ctx.violation("poisson_L:seed_plus_injected_numbers_depends_on_global_state", {"first": repr(outs[0])[:200], "second": repr(outs[1])[:200], "n1": n1})
+            elif not outs[0].ok:
+                ctx.unexpected(outs[0], "poisson_L_seed_plus_injected_numbers")
+            else:
+                t0_, t1_ = [float(x) for x in outs[0].value.test_distribution], [float(x) for x in outs[1].value.test_distribution]
+                if t0_ != t1_ and not all(math.isnan(x) and math.isnan(y) for x, y in zip(t0_, t1_)):
+                    ctx.violation("poisson_L:seed_plus_injected_numbers_depends_on_global_state", {"first": t0_[:3], "second": t1_[:3], "n1": n1})
         # soft spy: counts conserved, nothing in zero-rate bins
         if orig is None:
             ctx.count("skipped:no_spy:" + name)
